@@ -112,7 +112,7 @@ theorem termination_info_total {bs : Bytes} (h : fromOctets deps bs = .ok .termi
 
 /-- PeerDownNotification: `reason`, `fsm` and `notification` never panic -/
 theorem peer_down_total {bs : Bytes} (h : fromOctets deps bs = .ok .peerDown) :
-    (∃ r, peerDownReason bs = .ok r) ∧ (∃ f, peerDownFsm bs = .ok f) ∧ (∃ n, peerDownNotification bs = .ok n) := by
+    (∃ r, peerDownReason bs = .ok r) ∧ (∃ f, peerDownFsm bs = .ok f) ∧ (∃ n, peerDownNotification deps bs = .ok n) := by
   have hc := (kind_check h).2
   simp only [checkKind, peerDownCheck] at hc
   obtain ⟨-, hl, hc⟩ := bothCheck_prefix_len hc
@@ -151,7 +151,15 @@ theorem peer_down_total {bs : Bytes} (h : fromOctets deps bs = .ok .peerDown) :
       by_cases hA : ((if beAt bs 48 1 ≤ 5 then beAt bs 48 1 else 6) = 1 ∨ (if beAt bs 48 1 ≤ 5 then beAt bs 48 1 else 6) = 3)
       · by_cases hB : COFF + 1 = bs.length
         · simp only [hA, hB, if_true]; exact ⟨_, rfl⟩
-        · simp only [hA, hB, if_true, if_false]; exact ⟨_, rfl⟩
+        · simp only [hA, hB, if_true, if_false]
+          have h13 : beAt bs 48 1 = 1 ∨ beAt bs 48 1 = 3 := by
+            split at hA <;> omega
+          have hlt : ¬ 48 + 1 ≥ bs.length := by simp [COFF] at hB; omega
+          simp only [h13, if_true, hlt, if_false] at hc
+          cases hn : deps.notifParse (List.drop (48 + 1) bs) with
+          | ok k => simp only [COFF, hn]; exact ⟨_, rfl⟩
+          | err => simp [hn] at hc
+          | panic => simp [hn] at hc
       · simp only [hA, if_false]; exact ⟨_, rfl⟩
   | err => simp [h2] at hc
   | panic => simp [h2] at hc
@@ -272,13 +280,14 @@ theorem termination_roundtrip (hdr : Bytes) (ts : List TermInfo) (hh : hdr.lengt
 example : ∀ t ∈ [TermInfo.customString [104, 105], TermInfo.reason 3], WfTerm t := by simp [WfTerm]
 
 /-- peer down: reason, FSM code and the embedded NOTIFICATION (byte for byte)
-are what follows the 48 header bytes -/
+are what follows the 48 header bytes; the NOTIFICATION is the message
+its own header delimits (`notifParse payload = ok k`) -/
 theorem peer_down_roundtrip (hdr payload : Bytes) (reason : Nat) (hh : hdr.length = 48) (hr : reason < 256) :
     peerDownReason (hdr ++ [UInt8.ofNat reason] ++ payload) = .ok (if reason ≤ 5 then reason else 6) ∧
     (reason = 2 → 2 ≤ payload.length →
       peerDownFsm (hdr ++ [UInt8.ofNat reason] ++ payload) = .ok (some (beAt payload 0 2))) ∧
-    ((reason = 1 ∨ reason = 3) → payload ≠ [] →
-      peerDownNotification (hdr ++ [UInt8.ofNat reason] ++ payload) = .ok (some payload)) := by
+    ((reason = 1 ∨ reason = 3) → payload ≠ [] → ∀ k, deps.notifParse payload = .ok k →
+      peerDownNotification deps (hdr ++ [UInt8.ofNat reason] ++ payload) = .ok (some (payload.take k))) := by
   have hreason : peerDownReason (hdr ++ [UInt8.ofNat reason] ++ payload) = .ok (if reason ≤ 5 then reason else 6) := by
     unfold peerDownReason
     have := idx_shift hdr ([UInt8.ofNat reason] ++ payload) 0
@@ -297,7 +306,7 @@ theorem peer_down_roundtrip (hdr payload : Bytes) (reason : Nat) (hh : hdr.lengt
     simp only [COFF]
     rw [this]
     simp [rdBE, hl]
-  · intro h13 hne
+  · intro h13 hne k hk
     unfold peerDownNotification
     rw [hreason]
     dsimp only
@@ -313,6 +322,6 @@ theorem peer_down_roundtrip (hdr payload : Bytes) (reason : Nat) (hh : hdr.lengt
       have : COFF + 1 = (hdr ++ [UInt8.ofNat reason]).length := by simp [hh, COFF]
       rw [this, List.drop_left']
       rfl
-    rw [this]
+    rw [this, hk]
 
 end Rc.Thm.C15
